@@ -464,7 +464,30 @@ func runC06(c *Ctx) {
 				if !ok || b.Op != token.ADD || !r.isLoad(b.X, field) {
 					continue
 				}
+				// an advance by the length of what was just copied, on the edge that has established that it ends
+				// before the end of the ring (len(src) < len(data) - index), needs no wrap
+				if cp, ok := origin(b.Y).(*ssa.Call); ok && isCall(cp, "builtin.copy") {
+					fa0, isFA := st.Addr.(*ssa.FieldAddr)
+					if !isFA {
+						fa0, _ = origin(st.Addr).(*ssa.FieldAddr)
+					}
+					if fa0 == nil {
+						o.Site(in.Pos(), "%s advanced", field)
+						goto wrapRule
+					}
+					recvN := fa0.X
+					want := linSym("len(" + accessPath(recvN) + "." + r.data + ")").add(linSym(accessPath(recvN)+"."+field), -1).add(linSym("len("+accessPath(origin(cp.Call.Args[1]))+")"), -1)
+					inside := hasFact(in, func(ft fact) bool {
+						a, pol, ok := atomOf(ft.Cond, ft.Val, nil)
+						return ok && pol && !a.Eq && a.Form.eq(want)
+					})
+					if inside {
+						o.Site(in.Pos(), "%s advanced by a copy that ends before the end of the ring", field)
+						continue
+					}
+				}
 				o.Site(in.Pos(), "%s advanced", field)
+			wrapRule:
 				// every path from the store to a use (index / slice / unlock) passes a wrap test on a fresh load
 				isWrapTest := func(x ssa.Instruction) bool {
 					iff, ok := x.(*ssa.If)
